@@ -281,6 +281,11 @@ def construct(ex, name, e):
         if e.args or e.keywords:
             raise Unsupported('Model(...) with arguments')
         return SModel(z3.Const('default_model', vl.ModelS))
+    if name == 'DecodeError':
+        args, kw = args_of(ex, e)
+        def g(k, i):
+            return as_val(kw[k]) if k in kw else (as_val(args[i]) if len(args) > i else VNone)
+        return V(vobj('DecodeError', [g('message', 0), g('lineno', 2), g('offset', 3), g('text', 4)]))
     if name in ERROR_CLASSES:
         raise Unsupported('exception object used as a value')
     raise Unsupported('constructor %s' % name)
@@ -296,8 +301,12 @@ def exception_value(ex, exc):
                 kw = {k.arg: ex.ev(k.value) for k in exc.keywords}
                 return 'DecodeError', kw
             return exc.func.id, None
-        # raise tokens.error(...) / raise self.error(...)
+        # raise tokens.error(...) / raise self.error(...): the decode error, positioned by the token
+        # given (or by the last token returned when the input has run out)
         v = ex.ev(exc)
+        if isinstance(v, V):
+            # an exception object built by a function under contract (TokenIterator.error)
+            return 'DecodeError', {'value': v}
         if isinstance(v, SFunc) and v.kind == 'errorobj':
             return v.exc, v.payload
         raise Unsupported('raise of a computed exception')
@@ -459,8 +468,16 @@ def bi_iter(ex, e):
 
 def bi_next(ex, e):
     g = ex.ev(e.args[0])
-    if isinstance(g, SObj) and g.cls == 'TokenStream':
-        raise Unsupported('next() on a raw token stream')
+    if isinstance(g, SObj) and g.cls == 'Iter':
+        # a stateful iterator over a sequence: next() takes its first element or raises StopIteration
+        seq = get_elems(as_val(g.fields['seq']))
+        if len(e.args) > 1:
+            raise Unsupported('next(iterator, default) on a stateful iterator')
+        ex.safe(z3.Length(seq) > 0, 'StopIteration', 'next()', e)
+        from . import mutate
+        mutate.in_place(ex, e.args[0], e)
+        g.fields['seq'] = V(VList(z3.SubSeq(seq, 1, z3.Length(seq) - 1)))
+        return V(seq[0])
     if not isinstance(g, SGen):
         raise Unsupported('next() on %s' % type(g).__name__)
     seq = g.seq
@@ -687,6 +704,11 @@ def bi_fld(ex, e):
     attr = e.args[1].value
     owners = [c for c, fs in vl.FIELDS.items() if attr in fs]
     return V(get_fields(v)[vl.FIELDS[owners[0]].index(attr)])
+
+
+def bi_nfields(ex, e):
+    """number of fields of a record object (a Token has five)"""
+    return V(VInt(z3.Length(get_fields(ex.evv(e.args[0])))))
 
 
 def bi_aln_marker(ex, e):
@@ -920,11 +942,14 @@ def str_method(ex, s, name, e):
         chars = as_val(args[0])
         if static_kind(chars) == 'VStr' and z3.is_string_value(chars.arg(0)) and len(chars.arg(0).as_string()) == 1:
             ch = chars.arg(0)
-            r = fresh('lstripped', vl.String)
-            p = fresh('lead', vl.String)
-            ex.assume(s == z3.Concat(p, r))
-            ex.assume(z3.InRe(p, z3.Star(z3.Re(ch))))
-            ex.assume(z3.Not(z3.PrefixOf(ch, r)))
+            # T2: s == lead ++ result, lead consists of the character only, the result does not start with it
+            f = z3.Function('str_lstrip1', vl.String, vl.String, vl.String)
+            r = f(s, ch)
+            if not ex.spec_mode:
+                p = fresh('lead', vl.String)
+                ex.assume(s == z3.Concat(p, r))
+                ex.assume(z3.InRe(p, z3.Star(z3.Re(ch))))
+                ex.assume(z3.Not(z3.PrefixOf(ch, r)))
             return V(VStr(r))
         raise Unsupported('lstrip with a non-literal character set')
     if name in ('rstrip', 'strip', 'lstrip') and not args:
@@ -951,7 +976,17 @@ def str_method(ex, s, name, e):
         seq = seq_term(ex, args[0], e)
         return V(VStr(str_join(s, seq)))
     if name == 'format':
-        raise Unsupported('str.format')
+        if not z3.is_string_value(s):
+            raise Unsupported('str.format on a computed template')
+        tmpl = s.as_string()
+        pieces = tmpl.split('{}')
+        if '{' in ''.join(pieces) or len(pieces) - 1 != len(args) or kw:
+            raise Unsupported('str.format template %r' % tmpl)
+        out = [S(pieces[0])]
+        for a, p in zip(args, pieces[1:]):
+            out.append(ex.str_of(as_val(a)))
+            out.append(S(p))
+        return V(VStr(z3.Concat(*out) if len(out) > 1 else out[0]))
     if name == 'split' and len(args) == 1:
         raise Unsupported('str.split')
     if not hasattr(str, name):
